@@ -195,7 +195,7 @@ theorem C09_open (fmt : Fmt) (c0 : Option (List ChnaEntry)) (a0 b0 : Option Byte
   generalize hR : riffSizeOf (preB c0 a0 b0) (dataOf ops)
     (lateB c0.isSome (truthy a0) (truthy b0) (pendChna c0 ops) (pendAxml a0 ops) (pendBext b0 ops)) = R at hfile0
   have hRlt : R < 2 ^ 64 := by rw [← hR]; unfold riffSizeOf; omega
-  have hnR : (dataOf ops).length ≤ R := by rw [← hR]; unfold riffSizeOf; omega
+  have hnR : (dataOf ops).length + 72 ≤ R := by rw [← hR]; unfold riffSizeOf; omega
   split at hfile0
   · -- BW64
     rename_i hbw
@@ -210,7 +210,7 @@ theorem C09_open (fmt : Fmt) (c0 : Option (List ChnaEntry)) (a0 b0 : Option Byte
     have hhead := readHead_bw64 (f := f) (rest := _) hfile.symm hRlt (by omega)
     have hdOK : (dataC 4294967295 (dataOf ops) (pad (dataOf ops).length)).OK (some ⟨R, (dataOf ops).length, []⟩) :=
       ⟨by simp only [dataC]; decide, by simp only [dataC]; decide, by simp only [dataC]; omega,
-        by simp [effSize, hdrSize, dataC], by simp [dataC, pad_length]⟩
+        by simp [effSize, hdrSize, dataC], by simp [dataC, pad_length], rfl⟩
     have hok : ∀ c ∈ ([] ++ bodyC fmt c0 a0 b0 4294967295 (dataOf ops) (pad (dataOf ops).length) (pendChna c0 ops) (pendAxml a0 ops)
         (pendBext b0 ops)), c.OK (some ⟨R, (dataOf ops).length, []⟩) := by
       simpa using bodyC_ok _ hds hc0 hcF ha0 haF hb0 hbF hdOK
@@ -245,7 +245,8 @@ theorem C09_open (fmt : Fmt) (c0 : Option (List ChnaEntry)) (a0 b0 : Option Byte
     have hhead := readHead_riff (f := f) (s4 := le 4 R) (rest := _) hfile.symm (le_length 4 R)
     have hdOK : (dataC (dataOf ops).length (dataOf ops) (pad (dataOf ops).length)).OK none :=
       ⟨by simp only [dataC]; decide, by simp only [dataC]; decide, by simp only [dataC]; omega,
-        by simp [effSize, hdrSize, dataC], by simp [dataC, pad_length]⟩
+        by simp [effSize, hdrSize, dataC], by simp [dataC, pad_length],
+        by simp only [dataC, isPlaceholder, decide_true, Bool.true_and]; exact decide_eq_false (by omega)⟩
     have hok : ∀ c ∈ ([junkC] ++ bodyC fmt c0 a0 b0 (dataOf ops).length (dataOf ops) (pad (dataOf ops).length) (pendChna c0 ops)
         (pendAxml a0 ops) (pendBext b0 ops)), c.OK none := by
       intro c hc
